@@ -582,6 +582,12 @@ pub fn edge_hugging_point_at(rng: &mut Rng, res: i32, base: (f64, f64)) -> (f64,
     let t = if rng.chance(1, 3) { 0.0 } else { rng.unit() };
     let ex = p.longitude() + t * (q.longitude() - p.longitude());
     let ey = p.latitude() + t * (q.latitude() - p.latitude());
+    // one time in five exactly the reported corner / a point of the straight segment between two reported corners
+    // (a point on, or within rounding of, the boundary: any cell that contains it up to the band is a right answer,
+    // and the lookup's fallback for points that no candidate claims decides which)
+    if rng.chance(1, 5) {
+        return (ex, ey);
+    }
     let f = 1.0 + (if rng.chance(1, 2) { 1.0 } else { -1.0 }) * 10f64.powf(-(1.5 + 4.5 * rng.unit()));
     (c.longitude() + f * (ex - c.longitude()), c.latitude() + f * (ey - c.latitude()))
 }
